@@ -22,12 +22,21 @@ PLAN = {
     },
     "C03": {
         "gen": [G("partial", "Gen_Fn_Partial.cfg")],
-        "drive": [D("partial_fn", 3000, 200000)],
+        "drive": [D("partial_fn", 3000, 200000), D("commute", 800, 40000)],
     },
     "C04": {
         "gen": [G("subst", "Gen_Fn_Subst.cfg")],
-        "drive": [D("subst_fn", 2000, 100000)],
+        "drive": [D("subst_fn", 2000, 100000), D("inst_subst", 800, 40000), D("deps_order", 300, 5000)],
     },
+    "C05": {"drive": [D("evaluate", 2000, 100000)]},
+    "C06": {"drive": [D("samples", 1000, 50000)]},
+    "C09": {"drive": [D("penalty", 1000, 50000)]},
+    "C10": {"drive": [D("with_parameters", 1500, 60000)]},
+    "C11": {"drive": [D("pubo", 1000, 40000)]},
+    "C12": {"drive": [D("log_encode", 1000, 50000)]},
+    "C13": {"drive": [D("slack", 1000, 40000)]},
+    "C14": {"drive": [D("relax_restore", 600, 30000)]},
+    "C15": {"drive": [D("as_min", 500, 20000), D("best", 1500, 60000)]},
     "C16": {
         "gen": [G("bound", "Gen_Fn_Bound.cfg"), G("contains", "Gen_Fn_Contains.cfg"), G("evalbound", "Gen_Fn_EvalBound.cfg"), G("content", "Gen_Fn_Content.cfg")],
         "drive": [D("eval_bound", 2000, 100000), D("content_factor", 2000, 100000)],
@@ -38,7 +47,25 @@ PLAN = {
 OWN = {
     "C01": {"eval_fn": "*"},
     "C02": {"arith": "*", "fn_info": "*"},
-    "C03": {"partial_fn": "*"},
-    "C04": {"subst_fn": "*"},
+    "C03": {"partial_fn": "*", "inst_partial": "*", "commute": "*"},
+    "C04": {"subst_fn": "*", "inst_subst": "*", "deps_order": "*"},
+    "C05": {"drive": [D("evaluate", 2000, 100000)]},
+    "C06": {"drive": [D("samples", 1000, 50000)]},
+    "C09": {"drive": [D("penalty", 1000, 50000)]},
+    "C10": {"drive": [D("with_parameters", 1500, 60000)]},
+    "C11": {"drive": [D("pubo", 1000, 40000)]},
+    "C12": {"drive": [D("log_encode", 1000, 50000)]},
+    "C13": {"drive": [D("slack", 1000, 40000)]},
+    "C14": {"drive": [D("relax_restore", 600, 30000)]},
+    "C15": {"drive": [D("as_min", 500, 20000), D("best", 1500, 60000)]},
     "C16": {"bound_op": "*", "eval_bound": "*", "content_factor": "*"},
+    "C05": {"evaluate": "*"},
+    "C06": {"evaluate_samples": "*"},
+    "C09": {"penalty": "*", "uniform_penalty": "*"},
+    "C10": {"with_parameters": "*", "to_parametric": "*"},
+    "C11": {"pubo": "*", "qubo": "*"},
+    "C12": {"log_encode": "*"},
+    "C13": {"slack_convert": "*", "slack_add": "*"},
+    "C14": {"relax": "*", "restore": "*"},
+    "C15": {"as_min": "*", "best": "*"},
 }
